@@ -525,6 +525,9 @@ def boolean_and_simplifier(*args):
         mustbe = eq_list[0]
         if any(eq.args[0] != mustbe.args[0] for eq in eq_list):
             return claripy.false()
+        if any(ne.args[0] == mustbe.args[0] for ne in ne_list):
+            # the same value as another object (an annotated constant)
+            return claripy.false()
         return target_var == eq_list[0]
     return flattened
 
